@@ -230,8 +230,7 @@ theorem handleUpdated_preserves (L : StableG G P) (f : Key) : Preserves P (fun s
   · rw [if_pos h1] at h; exact L.markConsumersPending_preserves f s s' hp h
   · rw [if_neg h1] at h
     by_cases h2 : s.fileState? f = some .planned ∨ s.fileState? f = some .outdated
-    · rw [if_pos h2] at h
-      exact bind_ok h (fun s1 h1 => L.pendCreator_preserves f s s1 hp h1) (L.markConsumersPending_preserves f)
+    · rw [if_pos h2] at h; exact L.pendCreator_preserves f s s' hp h
     · rw [if_neg h2] at h
       simp only [pure, Except.pure, Except.ok.injEq] at h; subst h; exact hp
 
